@@ -99,10 +99,27 @@ func directedC11() []runnable {
 		&NICase{Kind: "n", GVars: lists, Tasks: []NITask{
 			{Name: "t0", Caller: true, Leaf: true, Tag: "A", Val: "one"},
 			{Name: "t1", Caller: true, Leaf: true, Tag: "B", Val: "two"}}, Order: []int{0, 1}, Target: 1},
+		// a task with templated defer: entries called twice with different vars: by two Run calls,
+		// through cmds:, through a for: loop, and concurrently through deps:
+		dfrCase(lists, ""), dfrCase(lists, "cmds"), dfrCase(lists, "for"), dfrCase(lists, "deps"),
+		// Taskfile-level vars / env that refer to per-task special variables, two tasks in one invocation
+		&NICase{Kind: "n", GVars: append(append([]Entry{}, lists...), perTaskGlobals()...), GEnv: perTaskGlobalEnv(), Tasks: []NITask{
+			{Name: "t0", Vars: []Entry{lit("VR", "r0")}},
+			{Name: "t1", Vars: []Entry{lit("VR", "r1")}}}, Order: []int{0, 1}, Target: 1},
+		&NICase{Kind: "n", GVars: append(append([]Entry{}, lists...), perTaskGlobals()...), GEnv: perTaskGlobalEnv(), Combine: "deps", Tasks: []NITask{
+			{Name: "t0", Vars: []Entry{lit("VR", "r0")}},
+			{Name: "t1", Vars: []Entry{lit("VR", "r1")}},
+			{Name: "t2", Caller: true, Leaf: true, Tag: "C", Val: "v1"}}, Order: []int{0, 2, 1}, Target: 1},
 		&NICase{Kind: "n", GVars: lists, Tasks: []NITask{
 			{Name: "t0", Caller: true, Tag: "A", List: "LA"},
 			{Name: "t1", Caller: true, Tag: "B", List: "LB"}}, Order: []int{0, 1}, Target: 1},
 	}
+}
+
+func dfrCase(lists []Entry, combine string) *NICase {
+	return &NICase{Kind: "n", GVars: lists, Combine: combine, Tasks: []NITask{
+		{Name: "t0", Caller: true, Dfr: true, Tag: "A", Val: "one"},
+		{Name: "t1", Caller: true, Dfr: true, Tag: "B", Val: "two"}}, Order: []int{0, 1}, Target: 1}
 }
 
 func genC11(o *common.Opts) []runnable {
@@ -175,7 +192,7 @@ func Main(args []string) {
 	}
 	obs := common.NewObs("vars", o.Seed)
 	// names the generated tasks use must not leak in from the harness's own environment
-	for _, n := range []string{"VN", "VM", "VQ", "VR", "EN", "EM", "GE", "E1", "E2", "TASK", "ALIAS", "TASK_X_ENV_PRECEDENCE"} {
+	for _, n := range []string{"VN", "VM", "VQ", "VR", "EN", "EM", "GE", "E1", "E2", "GT", "GS", "DTAG", "TASK", "ALIAS", "TASK_X_ENV_PRECEDENCE"} {
 		_ = os.Unsetenv(n)
 	}
 	var cases []runnable
@@ -305,7 +322,13 @@ func Main(args []string) {
 			obs.Count(fmt.Sprintf("tasks:%d", len(t.Tasks)))
 			obs.Count(fmt.Sprintf("prefix:%d", len(t.Order)-1))
 			obs.Count(fmt.Sprintf("parallel:%v", t.Parallel))
-			if t.Tasks[t.Target].Caller && t.Tasks[t.Target].Leaf {
+			obs.Count("combine:" + map[string]string{"": "separate-calls"}[t.Combine] + t.Combine)
+			if len(t.pgVars())+len(t.pgEnv()) > 0 {
+				obs.Count("per-task-globals")
+			}
+			if t.Tasks[t.Target].Caller && t.Tasks[t.Target].Dfr {
+				obs.Count("target:templated-defer")
+			} else if t.Tasks[t.Target].Caller && t.Tasks[t.Target].Leaf {
 				obs.Count("target:called-with-vars")
 			} else if t.Tasks[t.Target].Caller {
 				obs.Count("target:matrix")
@@ -319,7 +342,7 @@ func Main(args []string) {
 				exprKinds(tk.Vars, obs.Histogram)
 				exprKinds(tk.Env, obs.Histogram)
 			}
-			nontrivial = len(t.Alone.Vars)+len(t.Alone.Env)+len(t.Alone.Items) > 0
+			nontrivial = len(t.Alone.Vars)+len(t.Alone.Env)+len(t.Alone.Items)+len(t.Alone.Defers) > 0
 		}
 		key, _ := json.Marshal(c)
 		if nontrivial && !seen[string(key)] {
@@ -346,6 +369,7 @@ func Main(args []string) {
 		emit("R_n_env", "(nrun_blamed nv_env)", "nruns", nIdx)
 		emit("R_n_matrix", "(nrun_blamed nv_matrix)", "nruns", nIdx)
 		emit("R_n_dirlate", "(nrun_blamed nv_dirlate)", "nruns", nIdx)
+		emit("R_n_defer", "(nrun_blamed nv_defer)", "nruns", nIdx)
 		emit("R_n_other", "nrun_unexplained", "nruns", nIdx)
 		emit("R_n_own_dir", "(nrun_own_blamed nv_dir)", "nruns", nIdx)
 		emit("R_n_own_env", "(nrun_own_blamed nv_env)", "nruns", nIdx)
